@@ -709,6 +709,44 @@ func c20Emitter(c *core.Ctx) {
 		})
 		c.Check(R, "types.(*emmiter).Emit/snapshot-once-each", em.Pos(), snap && ncalls == 1, keyf("ranges over Slice.All()=%v, listener calls per iteration=%d", snap, ncalls))
 	}
+	// each Once registration has its own guard: the sync.Once of a one-time listener is allocated inside the per-listener loop
+	if on := c.Fn(R, "types.(*emmiter).Once"); on != nil {
+		info := on.Info()
+		var loop *ast.RangeStmt
+		ast.Inspect(on.Body, func(x ast.Node) bool {
+			if r, ok := x.(*ast.RangeStmt); ok && loop == nil {
+				loop = r
+			}
+			return true
+		})
+		nLit, okAll := 0, true
+		ast.Inspect(on.Body, func(x ast.Node) bool {
+			lit, ok := x.(*ast.CompositeLit)
+			if !ok || core.TypeName(info.TypeOf(lit)) != "oneTimeListener" {
+				return true
+			}
+			nLit++
+			fresh := false
+			for _, el := range lit.Elts {
+				kv, isKV := el.(*ast.KeyValueExpr)
+				if !isKV {
+					continue
+				}
+				if id, isI := kv.Key.(*ast.Ident); !isI || id.Name != "fired" {
+					continue
+				}
+				v := on.Resolve(kv.Value)
+				if ue, isU := ast.Unparen(v).(*ast.UnaryExpr); isU && ue.Op == token.AND {
+					if cl, isC := ast.Unparen(ue.X).(*ast.CompositeLit); isC && core.TypeName(info.TypeOf(cl)) == "Once" {
+						fresh = loop != nil && loop.Body.Pos() <= cl.Pos() && cl.End() <= loop.Body.End()
+					}
+				}
+			}
+			okAll = okAll && fresh && loop != nil && loop.Body.Pos() <= lit.Pos() && lit.End() <= loop.Body.End()
+			return true
+		})
+		c.Check(R, "types.(*emmiter).Once/one-guard-per-listener", on.Pos(), nLit == 1 && okAll, "every listener of a Once call gets its own &sync.Once{} allocated in the per-listener loop (a shared guard lets only the first of them ever run)")
+	}
 	// oneTimeListener.execute
 	if ex := c.Fn(R, "types.(*oneTimeListener).execute"); ex != nil {
 		ok := false
